@@ -469,8 +469,8 @@ func (r *Run) finish(def *PropDef, known []KnownFinding, verifDir string, start 
 				return ""
 			}
 			j := strings.Index(key[i:], ":")
-			if j < 0 {
-				return ""
+			if j < 0 || key[i:i+j+1] != "#range:" {
+				return "" // only kinds whose suffix is the text of the ranged expression
 			}
 			return rule + "|" + key[:i+j+1]
 		}
